@@ -104,6 +104,9 @@ def check_case(ctx, case):
         ctx.fail("a second consecutive call gives a different result", case)
     ctx.note("product-citations", ncited)
     ctx.case({k: v for k, v in case.items() if k != "info"}, nontrivial=ncited > 0)
+    if ctx.evaluations % 3 == 0:
+        # the public target_sequence() looked at before assembling (citations still in their "[n]" form)
+        asm.lifecycle(ctx, {k: v for k, v in case.items() if k != "info"}, pretouch=True)
     ctx.op(op, None, reply=reply)
 
 
